@@ -589,6 +589,19 @@ func (g *gen) stepRandom() {
 					g.do(fmt.Sprintf("CH %d %d", c0, h0))
 				}
 			}
+			// routing through what came back: publish through every exchange that exists now, then drain
+			sn2 := g.snap()
+			for _, e := range sn2.Exchanges {
+				if e.Name == "" {
+					continue
+				}
+				g.uid++
+				g.do(fmt.Sprintf("PUB %d %d %s %s 0 0 1 %d 2", c0, h0, e.Name, g.pick(keys), g.uid))
+			}
+			for _, q := range sn2.Queues {
+				g.do(fmt.Sprintf("GET %d %d %s 1", c0, h0, q.Name))
+				g.do(fmt.Sprintf("GET %d %d %s 1", c0, h0, q.Name))
+			}
 		}
 		return
 	}
